@@ -3,7 +3,7 @@
 #   1. the patch applies and builds, 2. the existing suite still has its 48 passing tests, 3. the demo fails with the change,
 #   4. the demo passes without it.  Prints one summary line; leaves the worktree clean.
 set -u
-id="$1"; i="$2"; wt=/tmp/seed_$id; out=/tmp/seed_$id.out
+id="$1"; i="$2"; pfx="${SEEDPFX:-seed}"; wt=/tmp/${pfx}_$id; out=/tmp/${pfx}_$id.out
 cd "$wt" || exit 9
 git checkout -q -- . ; rm -f tests/demo_*.rs
 git apply "$out/patch_$i.diff" || { echo "$id/$i: PATCH DOES NOT APPLY"; exit 1; }
